@@ -30,67 +30,7 @@ RULES = {
 }
 
 
-# ----------------------------------------------------------------------------- known findings
-def load_known_findings():
-    p = os.path.join(VERIF, 'known_findings.json')
-    if not os.path.exists(p):
-        return []
-    return [k for k in json.load(open(p)).get('findings', []) if k.get('status') == 'known']
-
-
-def match_known(kf, prop, finding):
-    for k in kf:
-        if prop not in k.get('properties', [k.get('property')]):
-            continue
-        pred = KF_PREDICATES.get(k.get('class'))
-        if pred and pred(finding):
-            return k
-    return None
-
-
-def _events_of(finding):
-    return [corr.ev_from_json(e) for e in finding.get('events', [])]
-
-
-def kf_subscribe_in_multi(finding):
-    """EXEC of a queue containing (P)SUBSCRIBE/(P)UNSUBSCRIBE: AssertionError escapes, connection dead"""
-    evs = _events_of(finding)
-    queued_sub = False
-    for e in evs:
-        if e[0] == 'cmd':
-            n = Cn.name_of(e[2])
-            if n in Mn.SUBFAMILY:
-                queued_sub = True
-    detail = json.dumps(finding, default=str)
-    return queued_sub and ('AssertionError' in detail or 'StopIteration' in detail)
-
-
-KF_PREDICATES = {'subscribe_in_multi': kf_subscribe_in_multi}
-
-
-def replay_known(kf, prop):
-    """re-run each listed finding of this property against the real code; print it if it still fails"""
-    out = []
-    for k in kf:
-        if prop not in k.get('properties', [k.get('property')]):
-            continue
-        path = os.path.join(VERIF, k['replay'])
-        try:
-            rec = json.load(open(path))
-            evs = [corr.ev_from_json(e) for e in rec['events']]
-            im = I.Impl(version=rec.get('version', 7), seed=0)
-            crash = None
-            for e in evs:
-                if e[0] == 'open':
-                    im.open(e[1])
-                elif e[0] == 'cmd':
-                    _, c, _, _ = im.send(e[1], corr.encode_request(e[2]))
-                    crash = crash or c
-            if crash:
-                out.append('KNOWN-FINDING: property=%s %s %s' % (prop, k['id'], k['what']))
-        except Exception as ex:     # a broken replay file must not hide anything
-            out.append('KNOWN-FINDING-REPLAY-ERROR: %s %r' % (k.get('id'), ex))
-    return out
+from kf import load_known_findings, match_known, replay_known, KF_PREDICATES
 
 
 # ----------------------------------------------------------------------------- per-property runs
@@ -100,6 +40,7 @@ def budget(tier, quick, thorough):
 
 def run(prop, tier, seed, undischarged):
     res = Cp.Result()
+    res.prop = prop
     t_end = time.time() + (budget(tier, 150, 1500))
     fn = RUNNERS[prop]
     fn(res, tier, seed, t_end, undischarged)
@@ -150,7 +91,7 @@ def matrix_pre(res, prop, tier, seed, t_end, specs, observers=()):
     for label, cases, sample in specs:
         if res.findings:
             return
-        Mx.run_cases(res, prop, cases(), tier, seed, t_end, sample, observers, PROPS[prop]['scope'] if label not in ('ttl-rules', 'missing-keys', 'floats') else None,
+        Mx.run_cases(res, prop, cases(), tier, seed, t_end, sample, observers, PROPS[prop]['scope'] if label not in ('ttl-rules', 'missing-keys', 'floats', 'sets', 'lists', 'zsets', 'set-options') or prop in ('C01', 'C02', 'C03') and label in ('sets', 'lists', 'zsets', 'set-options') else None,
                      label=label)
 
 
@@ -181,7 +122,11 @@ def run_C04(res, tier, seed, t_end, bad):
                     budget(tier, 25, 400), seed + 1, None, obs, deadline=t_end)
     Cp.run_campaign(res, 'C04', Cp.plan_chunked(['str', 'list', 'tx', 'hash', 'key', 'pubsub']), budget(tier, 60, 1500), seed + 2, None, obs,
                     deadline=t_end)
-    parser_function_level(res, tier, seed)
+    if not res.findings:
+        parser_function_level(res, tier, seed)
+    if not res.findings:
+        import aio
+        aio.run_async_campaign(res, 'C04', aio.plan_async(60), budget(tier, 12, 300), seed + 3, t_end, None, obs)
 
 
 def parser_function_level(res, tier, seed):
@@ -211,18 +156,18 @@ def parser_function_level(res, tier, seed):
                 if b > a:
                     sock.sendall(prefix[a:b])
         except BaseException as e:   # noqa
-            res.findings.append({'kind': 'parser', 'verdict': 'violation', 'stream': prefix.hex(), 'cuts': cuts,
+            res.add({'kind': 'parser', 'verdict': 'violation', 'stream': prefix.hex(), 'cuts': cuts,
                                  'what': 'exception %s escaped sendall while the stream was written in chunks %r' % (type(e).__name__, cuts)})
             return
         res.evaluations += 1
         res.cells.add(('parser', len(reqs), min(len(got), 4), cutpos == len(stream)))
         if got != parsed:
-            res.findings.append({'kind': 'parser', 'verdict': 'violation', 'stream': prefix.hex(), 'impl': repr(got), 'model': repr(parsed),
+            res.add({'kind': 'parser', 'verdict': 'violation', 'stream': prefix.hex(), 'impl': repr(got), 'model': repr(parsed),
                                  'what': 'requests extracted from the byte stream differ'})
             return
         complete = [r for r in reqs]
         if cutpos == len(stream) and got != complete:
-            res.findings.append({'kind': 'parser', 'verdict': 'violation', 'stream': prefix.hex(), 'impl': repr(got),
+            res.add({'kind': 'parser', 'verdict': 'violation', 'stream': prefix.hex(), 'impl': repr(got),
                                  'what': 'complete stream not parsed back to the encoded requests (binary safety)'})
             return
 
@@ -300,7 +245,7 @@ def twin_expired_deleted(res, tier, seed, t_end):
         res.cells.add(('twin', Cn.name_of(probes[0]), key))
         if outs[0] != outs[1]:
             i = next(j for j in range(len(probes)) if outs[0][j] != outs[1][j])
-            res.findings.append({'kind': 'twin', 'verdict': 'violation', 'property': 'C07', 'clause': 'expired_eq_deleted', 'version': ver,
+            res.add({'kind': 'twin', 'verdict': 'violation', 'property': 'C07', 'clause': 'expired_eq_deleted', 'version': ver,
                                  'key': key.hex(), 'setup': [[x.hex() for x in f] for f in setup], 'probes': [[x.hex() for x in f] for f in probes[:i + 1]],
                                  'expired_twin': outs[0][i], 'deleted_twin': outs[1][i]})
             return
@@ -352,7 +297,7 @@ def wrongtype_matrix(res, tier, seed, t_end):
                     before = s.impl.snapshot_struct()
                     s.step(('cmd', 1, f))
                 except corr.Divergence as d:
-                    res.findings.append({'kind': 'divergence', 'verdict': 'violation', 'what': d.what, 'version': 7, 'seed': seed,
+                    res.add({'kind': 'divergence', 'verdict': 'violation', 'what': d.what, 'version': 7, 'seed': seed,
                                          'events': [corr.ev_json(('open', 1))] + [corr.ev_json(('cmd', 1, x)) for x in gen.SEED_COMMANDS + [f]],
                                          'impl': d.impl_side, 'model': d.model_side})
                     return
@@ -364,7 +309,7 @@ def wrongtype_matrix(res, tier, seed, t_end):
                 unchanged = I.live_view(before, after['now']) == I.live_view(after, after['now'])
                 if s.violations or not is_err or not unchanged:
                     # a missing-key short-circuit or an argument error reported first are both fine only if they are errors
-                    res.findings.append({'kind': 'monitor', 'property': 'C08', 'clause': 'wrongtype_matrix', 'version': 7, 'seed': seed,
+                    res.add({'kind': 'monitor', 'property': 'C08', 'clause': 'wrongtype_matrix', 'version': 7, 'seed': seed,
                                          'detail': '%r on a key holding a %s: reply %r, state unchanged=%s' % (f, have, last, unchanged),
                                          'events': [corr.ev_json(('open', 1))] + [corr.ev_json(('cmd', 1, x)) for x in gen.SEED_COMMANDS + [f]]})
                     return
@@ -379,6 +324,9 @@ def run_C08(res, tier, seed, t_end, bad):
                     seed + 1, None, obs, deadline=t_end)
     if not res.findings:
         wrongtype_matrix(res, tier, seed, t_end)
+    if not res.findings:
+        matrix_pre(res, 'C08', tier, seed, t_end, [('floats', Mx.floats_cases, 500), ('set-options', Mx.set_option_cases, 400), ('lists', Mx.lists_cases, 500),
+                                                   ('strings', Mx.strings_cases, 500)], obs)
 
 
 # ---- C09 -------------------------------------------------------------------------------------
@@ -470,13 +418,13 @@ def scan_iterations(res, tier, seed, t_end):
                     if s.violations:
                         break
             except corr.Divergence as d:
-                res.findings.append({'kind': 'divergence', 'verdict': Cp.judge(d, PROPS['C15']['scope']), 'what': d.what, 'version': s.version,
+                res.add({'kind': 'divergence', 'verdict': Cp.judge(d, PROPS['C15']['scope']), 'what': d.what, 'version': s.version,
                                      'seed': seed, 'events': [corr.ev_json(t[1]) for t in s.trace], 'impl': d.impl_side, 'model': d.model_side})
                 return
             res.absorb(s)
             if s.violations:
                 v = s.violations[0]
-                res.findings.append({'kind': 'monitor', 'property': 'C15', 'clause': v.clause, 'detail': v.detail, 'version': s.version,
+                res.add({'kind': 'monitor', 'property': 'C15', 'clause': v.clause, 'detail': v.detail, 'version': s.version,
                                      'seed': seed, 'events': [corr.ev_json(t[1]) for t in s.trace]})
                 return
     if tier == 'thorough':
@@ -502,7 +450,7 @@ def scan_type_oracle(res, tier, seed, t_end):
                     r = o.get(1, [None])[0]
                     guard += 1
                     if crash or not isinstance(r, list) or guard > 50:
-                        res.findings.append({'kind': 'scan', 'verdict': 'violation', 'property': 'C15', 'what': 'SCAN TYPE/MATCH misbehaves: %r -> %r %r' % (f, r, crash)})
+                        res.add({'kind': 'scan', 'verdict': 'violation', 'property': 'C15', 'what': 'SCAN TYPE/MATCH misbehaves: %r -> %r %r' % (f, r, crash)})
                         return
                     got += r[1]
                     cur = r[0] if isinstance(r[0], bytes) else str(r[0]).encode()
@@ -512,7 +460,7 @@ def scan_type_oracle(res, tier, seed, t_end):
                 res.evaluations += guard
                 res.cells.add(('scan-type', t, pat, cnt))
                 if sorted(got) != want or len(got) != len(set(got)):
-                    res.findings.append({'kind': 'scan', 'verdict': 'violation', 'property': 'C15', 'clause': 'scan_match_type',
+                    res.add({'kind': 'scan', 'verdict': 'violation', 'property': 'C15', 'clause': 'scan_match_type',
                                          'what': 'SCAN TYPE %s MATCH %r COUNT %d returned %r, expected %r' % (t, pat, cnt, got, want)})
                     return
 
@@ -575,14 +523,14 @@ def binary_roundtrip(res, tier, seed, t_end):
             if got != [[b'message', ch, msg]]:
                 s.violations.append(Mn.Violation('C17', 'stored_bytes_unchanged', 'published %r/%r, subscriber got %r' % (ch, msg, got), s.index))
         except corr.Divergence as d:
-            res.findings.append({'kind': 'divergence', 'verdict': 'violation', 'what': d.what, 'version': s.version, 'seed': seed,
+            res.add({'kind': 'divergence', 'verdict': 'violation', 'what': d.what, 'version': s.version, 'seed': seed,
                                  'events': [corr.ev_json(t[1]) for t in s.trace], 'impl': d.impl_side, 'model': d.model_side})
             return
         res.absorb(s)
         res.cells.add(('binary', len(val) > 300, len(key) == 256, val == b''))
         if s.violations:
             v = s.violations[0]
-            res.findings.append({'kind': 'monitor', 'property': 'C17', 'clause': v.clause, 'detail': v.detail, 'version': s.version, 'seed': seed,
+            res.add({'kind': 'monitor', 'property': 'C17', 'clause': v.clause, 'detail': v.detail, 'version': s.version, 'seed': seed,
                                  'events': [corr.ev_json(t[1]) for t in s.trace]})
             return
 
@@ -620,11 +568,11 @@ def run_C18(res, tier, seed, t_end, bad):
             spec = Fn.int_spec(v, lo, hi)
             res.cells.add((kind, a[0], len(v) > 18, spec is not None))
             if (a[0] == 'ok') != (spec is not None) or (a[0] == 'ok' and int(a[1]) != spec):
-                res.findings.append({'kind': 'conv', 'verdict': 'violation', 'converter': kind, 'value': v.hex(), 'impl': a,
+                res.add({'kind': 'conv', 'verdict': 'violation', 'converter': kind, 'value': v.hex(), 'impl': a,
                                      'spec': spec, 'what': 'accepted/refused differently from canonical-decimal-in-range'})
                 return
             if a != b:
-                res.findings.append({'kind': 'conv', 'verdict': 'unconstrained', 'converter': kind, 'value': v.hex(), 'impl': a, 'model': b,
+                res.add({'kind': 'conv', 'verdict': 'unconstrained', 'converter': kind, 'value': v.hex(), 'impl': a, 'model': b,
                                      'what': 'correspondence:C18:' + kind})
                 return
     # float converters
@@ -649,11 +597,11 @@ def run_C18(res, tier, seed, t_end, bad):
             if kind == 'float' and a[0] == 'ok':
                 bits = int(a[1])
                 if Fn.nan_bits(bits) or not Fn.STRTOD_DEC.match(v):
-                    res.findings.append({'kind': 'conv', 'verdict': 'violation', 'converter': kind, 'value': v.hex(), 'impl': a,
+                    res.add({'kind': 'conv', 'verdict': 'violation', 'converter': kind, 'value': v.hex(), 'impl': a,
                                          'what': 'accepted a string that strtod would not consume completely as a non-NaN number'})
                     return
             if a != b:
-                res.findings.append({'kind': 'conv', 'verdict': 'violation' if a[0] != b[0] else 'unconstrained', 'converter': kind,
+                res.add({'kind': 'conv', 'verdict': 'violation' if a[0] != b[0] else 'unconstrained', 'converter': kind,
                                      'value': v.hex(), 'impl': a, 'model': b, 'what': 'correspondence:C18:' + kind})
                 return
     # the binary64 codec against CPython: formatting, addition, multiplication
@@ -668,12 +616,12 @@ def run_C18(res, tier, seed, t_end, bad):
             got = bytes.fromhex(m.ask('fmt %s %d' % (kind, bits))[2:])
             res.evaluations += 1
             if got != want:
-                res.findings.append({'kind': 'codec', 'verdict': 'unconstrained', 'bits': bits, 'format': kind, 'impl': want.hex(), 'model': got.hex(),
+                res.add({'kind': 'codec', 'verdict': 'unconstrained', 'bits': bits, 'format': kind, 'impl': want.hex(), 'model': got.hex(),
                                      'what': 'correspondence:C18:float-format'})
                 return
         # ZADD/ZSCORE round trip of the property: the 17 significant digits read back as the same double
         if x not in (float('inf'), float('-inf')) and float(I.C.Float.encode(x, False)) != x:
-            res.findings.append({'kind': 'codec', 'verdict': 'violation', 'bits': bits, 'what': 'score does not round-trip through Float.encode/decode'})
+            res.add({'kind': 'codec', 'verdict': 'violation', 'bits': bits, 'what': 'score does not round-trip through Float.encode/decode'})
             return
     for _ in range(budget(tier, 1500, 40000)):
         a, b = rng.choice(ds), rng.choice(ds)
@@ -688,7 +636,7 @@ def run_C18(res, tier, seed, t_end, bad):
             else:
                 ok = got == I.dbl_bits(val)
             if not ok:
-                res.findings.append({'kind': 'codec', 'verdict': 'unconstrained', 'op': op, 'a': a, 'b': b, 'impl': I.dbl_bits(val), 'model': got,
+                res.add({'kind': 'codec', 'verdict': 'unconstrained', 'op': op, 'a': a, 'b': b, 'impl': I.dbl_bits(val), 'model': got,
                                      'what': 'correspondence:C18:float-arith'})
                 return
     res.samples.append({'converter': 'int', 'value': '007', 'impl': Fn.py_conv('int', b'007')})
@@ -846,7 +794,7 @@ def run_C12(res, tier, seed, t_end, bad):
         res.histories += 1
         res.cells.add(('threads', nthreads, len(ev) // 200))
         if errors:
-            res.findings.append({'kind': 'threads', 'verdict': 'violation', 'property': 'C12', 'clause': 'no_exception', 'detail': errors[:3]})
+            res.add({'kind': 'threads', 'verdict': 'violation', 'property': 'C12', 'clause': 'no_exception', 'detail': errors[:3]})
             return
         f = Th.validate(ev, cmds, version, nthreads)
         if len(res.samples) < 2:
@@ -854,11 +802,11 @@ def run_C12(res, tier, seed, t_end, bad):
         if f is not None:
             f['seed'] = seed * 100003 + i
             f['threads'] = nthreads
-            res.findings.append(f)
+            res.add(f)
             return
         # clients created concurrently operate on the same data
         if len({id(d) for d in [srv.dbs[0]]}) != 1:
-            res.findings.append({'kind': 'threads', 'verdict': 'violation', 'property': 'C12', 'clause': 'same_data', 'detail': 'split databases'})
+            res.add({'kind': 'threads', 'verdict': 'violation', 'property': 'C12', 'clause': 'same_data', 'detail': 'split databases'})
             return
     constructor_race(res, tier, seed, t_end)
 
@@ -883,7 +831,7 @@ def constructor_race(res, tier, seed, t_end):
             [x.join() for x in ths]
             res.evaluations += 1
             if len({id(s._db) for s in socks}) != 1:
-                res.findings.append({'kind': 'threads', 'verdict': 'violation', 'property': 'C12', 'clause': 'concurrent_first_connection',
+                res.add({'kind': 'threads', 'verdict': 'violation', 'property': 'C12', 'clause': 'concurrent_first_connection',
                                      'detail': 'trial %d: the four sockets hold %d different Database objects' % (t, len({id(s._db) for s in socks}))})
                 return
         res.cells.add(('constructor-race', 4))
@@ -896,7 +844,7 @@ def run_C19(res, tier, seed, t_end, bad):
     where = Sx.available()
     if where is None:
         res.notes.append('no Lua host available')
-        res.findings.append({'kind': 'setup', 'verdict': 'unconstrained', 'what': 'correspondence:C19: no lupa module (stand-in missing)'})
+        res.add({'kind': 'setup', 'verdict': 'unconstrained', 'what': 'correspondence:C19: no lupa module (stand-in missing)'})
         return
     res.notes.append('Lua host: %s' % where)
     plan = Sx.plan_scripts(budget(tier, 45, 70))
@@ -921,7 +869,7 @@ def run_C19(res, tier, seed, t_end, bad):
             res.samples.append({'version': version, 'seed': hseed, 'events': [(corr.ev_json(t[1]), t[2]) for t in s.trace[-4:]]})
         if s.violations:
             v = s.violations[0]
-            res.findings.append({'kind': 'monitor', 'property': v.prop, 'clause': v.clause, 'detail': v.detail, 'version': version, 'seed': hseed,
+            res.add({'kind': 'monitor', 'property': v.prop, 'clause': v.clause, 'detail': v.detail, 'version': version, 'seed': hseed,
                                  'scripts': True, 'events': [corr.ev_json(e) for e in events[:v.index + 1]]})
             return
         if div is not None:
@@ -932,7 +880,7 @@ def run_C19(res, tier, seed, t_end, bad):
                 s2.run(small)
             except corr.Divergence as d:
                 d2 = d
-            res.findings.append({'kind': 'divergence', 'verdict': Cp.judge(d2, None), 'what': d2.what, 'version': version, 'seed': hseed,
+            res.add({'kind': 'divergence', 'verdict': Cp.judge(d2, None), 'what': d2.what, 'version': version, 'seed': hseed,
                                  'scripts': True, 'events': [corr.ev_json(e) for e in small], 'impl': d2.impl_side, 'model': d2.model_side,
                                  'at': corr.ev_json(d2.event)})
             return
@@ -956,14 +904,16 @@ RUNNERS = {
     'C20': run_C20,
     'C14': run_C14,
     'C01': generic('C01', Cp.plan_single(['str', 'key', 'ttl'], 60, select=0.03), Cp.plan_single(['str', 'key', 'ttl'], 80, select=0.03), 60, 1200,
-                   pre=lambda res, tier, seed, t_end, bad: matrix_pre(res, 'C01', tier, seed, t_end, [('strings', Mx.strings_cases, 2200), ('ttl-rules', Mx.ttl_cases, 300)])),
+                   pre=lambda res, tier, seed, t_end, bad: matrix_pre(res, 'C01', tier, seed, t_end, [('strings', Mx.strings_cases, 2200), ('set-options', Mx.set_option_cases, 700), ('ttl-rules', Mx.ttl_cases, 300)])),
     'C02': generic('C02', Cp.plan_single(['list', 'hash', 'set', 'sort', 'key'], 60), Cp.plan_single(['list', 'hash', 'set', 'sort', 'key'], 80), 60, 1200,
                    pre=lambda res, tier, seed, t_end, bad: matrix_pre(res, 'C02', tier, seed, t_end, [('lists', Mx.lists_cases, 2200), ('sets', Mx.sets_cases, 120)])),
     'C03': generic('C03', Cp.plan_single(['zset', 'zset', 'set', 'key'], 60), Cp.plan_single(['zset', 'zset', 'set', 'key'], 80), 60, 1200, OBSERVERS['C03'],
                    pre=lambda res, tier, seed, t_end, bad: matrix_pre(res, 'C03', tier, seed, t_end, [('zsets', Mx.zsets_cases, 1800), ('floats', Mx.floats_cases, 800)],
                                                                     OBSERVERS['C03'])),
     'C04': run_C04,
-    'C05': generic('C05', pre=lambda res, tier, seed, t_end, bad: __import__('scenarios').run(res, 'C05', tier, seed, t_end, ()),
+    'C05': generic('C05', pre=lambda res, tier, seed, t_end, bad: (__import__('scenarios').run(res, 'C05', tier, seed, t_end, ()),
+                                                                   None if res.findings else __import__('aio').run_async_campaign(
+                                                                       res, 'C05', __import__('aio').plan_async_tx(60), budget(tier, 15, 300), seed + 5, t_end)),
                    plan_q=Cp.plan_multi(['tx', 'str', 'list', 'set', 'server', 'key', 'ttl', 'zset'], 70, weights=[5, 2, 2, 1, 1, 1, 1, 1]),
                    plan_t=Cp.plan_multi(['tx', 'str', 'list', 'set', 'server', 'key', 'ttl', 'zset'], 90, weights=[5, 2, 2, 1, 1, 1, 1, 1]), n_q=40, n_t=800),
     'C06': generic('C06', pre=lambda res, tier, seed, t_end, bad: __import__('scenarios').run(res, 'C06', tier, seed, t_end, OBSERVERS['C06']),
@@ -975,6 +925,7 @@ RUNNERS = {
     'C09': generic('C09', plan_removal(60), plan_removal(90), 30, 500, OBSERVERS['C09'],
                    pre=lambda res, tier, seed, t_end, bad: matrix_pre(res, 'C09', tier, seed, t_end,
                                                                     [('missing-keys', lambda: Mx.missing_cases(random.Random(seed), 2 if tier == 'quick' else 12), 330),
+                                                                     ('sets', Mx.sets_cases, 80), ('lists', Mx.lists_cases, 250), ('zsets', Mx.zsets_cases, 150),
                                                                      ('ttl-rules', Mx.ttl_cases, 120)], OBSERVERS['C09'])),
     'C10': generic('C10', Cp.plan_multi(['pubsub', 'pubsub', 'tx', 'str', 'server'], 70, nconn=(2, 3, 4)),
                    Cp.plan_multi(['pubsub', 'pubsub', 'tx', 'str', 'server'], 90, nconn=(2, 3, 4)), 40, 800, OBSERVERS['C10']),
